@@ -332,6 +332,23 @@ def load_known(prop):
 
 # ---------------------------------------------------------------- the check driver
 
+def load_corpus(plugin):
+    """committed cases that run first: corpus/<ID>/*.json plus the directories the plug-in names"""
+    out = []
+    for d in [plugin.ID] + list(getattr(plugin, "CORPUS", [])):
+        dd = os.path.join(ROOT, "corpus", d)
+        if os.path.isdir(dd):
+            for f in sorted(os.listdir(dd)):
+                if f.endswith(".json"):
+                    try:
+                        c = json.load(open(os.path.join(dd, f)))
+                        c.pop("id", None)
+                        out.append(c)
+                    except Exception as e:
+                        log("corpus file %s unreadable: %r" % (f, e))
+    return out
+
+
 def canon_hash(obj):
     return hashlib.sha1(json.dumps(obj, sort_keys=True, separators=(",", ":")).encode()).hexdigest()
 
@@ -397,7 +414,7 @@ def run_check(plugin, tier, seed, replay=None):
         for i, c in enumerate(cases):
             c["id"] = i
     else:
-        cases = plugin.generate(rng, tier, stats)
+        cases = load_corpus(plugin) + plugin.generate(rng, tier, stats)
         for i, c in enumerate(cases):
             c["id"] = i
     if binary is None:
